@@ -552,6 +552,261 @@ def behaviour_leg(chk):
     return n_cmp
 
 
+# ---- which text of the sources does each build see?  conditional groups under the two macro environments ---------
+# Chains of conditionals that are KNOWN to take different branches in the library build (-DQTLOGGER_STATIC
+# -DQTLOGGER_LIBRARY) and in a header-only user's build (neither; the generated header defines QTLOGGER_DECL_SPEC),
+# keyed by file and opening directive, each with the reason why it is harmless and with what its groups may contain.
+KNOWN_CONDITIONALS = [
+    {'file': 'src/qtlogger/logger_global.h', 'opens': '#if defined(QTLOGGER_STATIC)',
+     'body': r'#\s*define\s+QTLOGGER_EXPORT(\s+Q_DECL_(EXPORT|IMPORT))?$',
+     'reason': 'import/export decoration only: selects the expansion of QTLOGGER_EXPORT (empty in the static library, Q_DECL_IMPORT = default '
+               'visibility for a header-only user); no statement depends on it'},
+    {'file': 'src/qtlogger/logger_global.h', 'opens': '#if !defined(QTLOGGER_DECL_SPEC)',
+     'body': r'#\s*define\s+QTLOGGER_DECL_SPEC$',
+     'reason': 'the amalgamation mechanism itself: the generated header defines QTLOGGER_DECL_SPEC as inline before the first source, the '
+               'library leaves it empty (out-of-line definitions in the .cpp files)'},
+]
+LIB_ENV = ['QTLOGGER_STATIC', 'QTLOGGER_LIBRARY']          # src/qtlogger/CMakeLists.txt: PUBLIC QTLOGGER_STATIC, PRIVATE QTLOGGER_LIBRARY
+LIB_USER_ENV = ['QTLOGGER_STATIC']                         # a program that links the static library
+HDR_ENV = []                                               # a program that includes the single header (it defines QTLOGGER_DECL_SPEC itself)
+
+
+def conditional_leg(chk, repo):
+    from checks import c20_cond as cc
+    thorough = chk.tier == 'thorough'
+    top = scratch_copy(repo)
+    cov = {}
+    try:
+        root = os.path.join(top, 'src', 'qtlogger')
+        files = sorted(os.path.join(d, f) for d, dirs, fs in os.walk(root) for f in fs if f.endswith(cc.EXTS))
+        fid = {p: i for i, p in enumerate(files)}
+        rel = lambda p: os.path.relpath(p, top)
+        table, next_id, scans = {}, [1], {}
+        for p in files:
+            txt = open(p, encoding='utf-8', errors='replace').read()
+            scans[p] = cc.scan(txt)
+            open(p, 'w', encoding='utf-8').write(cc.instrument(txt, fid[p], next_id, table, rel(p)))
+        # ids per file, in order of the conditional directives
+        ids_of = {p: [] for p in files}
+        for gid in sorted(table):
+            ids_of[os.path.join(top, table[gid]['file'])].append(gid)
+        # the known chains -> K (every directive of the chain), with the check of what the chain may contain
+        K, known_report = set(), []
+        for kc in KNOWN_CONDITIONALS:
+            p = os.path.join(top, kc['file'])
+            found = False
+            if p in scans:
+                ds, k, depth, chain = scans[p], 0, 0, None
+                raw = open(os.path.join(repo, kc['file']), encoding='utf-8', errors='replace').read().split('\n')
+                for d in ds:
+                    gid = None
+                    if d['kind'] in cc.COND_KINDS:
+                        gid = ids_of[p][k]
+                        k += 1
+                    if chain is None:
+                        if d['kind'] in ('if', 'ifdef', 'ifndef') and d['text'].replace('# ', '#') == kc['opens']:
+                            chain, depth, found = {'ids': [gid], 'first': d['first'], 'foreign': []}, 0, True
+                        continue
+                    if d['kind'] in ('if', 'ifdef', 'ifndef'):
+                        depth += 1
+                    elif d['kind'] == 'endif':
+                        if depth == 0:
+                            body = [l.strip() for l in raw[chain['first']:d['last'] + 1]]
+                            for l in body:
+                                code = re.sub(r'//.*$', '', l).strip()
+                                if code and not re.match(r'#\s*(if|ifdef|ifndef|elif|else|endif)\b', code) and not re.match(kc['body'], code):
+                                    chain['foreign'].append(l)
+                            K.update(chain['ids'])
+                            known_report.append({'file': kc['file'], 'opens': kc['opens'], 'groups': chain['ids'], 'reason': kc['reason'],
+                                                 'contains_only_what_is_allowed': not chain['foreign']})
+                            if chain['foreign']:
+                                chk.broke('the known conditional %s of %s now guards other text than the definition it is known for: %r'
+                                          % (kc['opens'], kc['file'], chain['foreign'][:3]),
+                                          {'kind': 'known-conditional-guards-other-text', 'file': kc['file'], 'opens': kc['opens'], 'lines': chain['foreign'][:10]})
+                            chain = None
+                            continue
+                        depth -= 1
+                    elif depth == 0 and gid is not None:
+                        chain['ids'].append(gid)
+            if not found:
+                known_report.append({'file': kc['file'], 'opens': kc['opens'], 'groups': [], 'note': 'not present in this tree'})
+        cov['known_conditionals'] = known_report
+        # ---- the instrumented single header (project generator on the instrumented copy)
+        gen, gerr = run_generator(top)
+        if gen is None:
+            chk.broke('the project generator failed on the instrumented copy of the tree: ' + gerr, {'kind': 'generator-crash', 'stderr': gerr})
+            return 0
+        hdr_text = gen.decode('utf-8', 'replace')
+        hdr_lines = hdr_text.split('\n')
+        hdr_scan = cc.scan(hdr_text)
+        hdr_ids, fresh = [], [10 ** 6]
+        for d in hdr_scan:
+            if d['kind'] in cc.COND_KINDS:
+                nxt = hdr_lines[d['last'] + 1] if d['last'] + 1 < len(hdr_lines) else ''
+                if nxt.startswith(cc.MARK):
+                    hdr_ids.append(int(nxt[len(cc.MARK):]))
+                else:
+                    fresh[0] += 1
+                    hdr_ids.append(fresh[0])
+        open(os.path.join(top, 'user_hdr.cpp'), 'w').write('#include "qtlogger.h"\n')
+        # ---- model program
+        macros = cc.Macros()
+        for n in LIB_ENV + ['QTLOGGER_DECL_SPEC', 'QTLOGGER_EXPORT']:
+            macros.of(n)
+        incdirs = [os.path.join(top, 'src'), root]
+
+        def resolver(p):
+            def r(inc):
+                for b in [os.path.dirname(p)] + incdirs:
+                    c = os.path.normpath(os.path.join(b, inc))
+                    if c in fid:
+                        return fid[c]
+                return None
+            return r
+        proto = ['K ' + ' '.join(str(k) for k in sorted(K))]
+        for p in files:
+            ml = cc.model_lines(scans[p], ids_of[p], macros, resolver(p))
+            proto += ['F %d' % len(ml)] + ml
+        hdr_file = len(files)
+        ml = cc.model_lines(hdr_scan, hdr_ids, macros, lambda inc: None)
+        proto += ['F %d' % len(ml)] + ml
+        # ---- configurations (feature macros, same on both sides) and translation units
+        feats = feature_macros(repo)
+        have_net = vlib.sh('pkg-config --exists Qt5Network')[0] == 0
+        combined = [m for m in ('QTLOGGER_SYSLOG', 'QTLOGGER_DEBUG', 'QTLOGGER_NO_THREAD', 'QTLOGGER_VERIF') if m in feats or m == 'QTLOGGER_VERIF']
+        combined += ['QTLOGGER_NETWORK'] if (have_net and 'QTLOGGER_NETWORK' in feats) else []
+        configs = [[], combined]
+        if thorough:
+            configs += [[m] for m in feats if [m] not in configs]
+        cf = qt_cflags()
+        cpps = [p for p in files if p.endswith('.cpp') and '/build/' not in p]
+        umbrella = os.path.join(root, 'qtlogger.h')
+        tus = [('lib', p, LIB_ENV) for p in cpps] + ([('lib-user', umbrella, LIB_USER_ENV)] if umbrella in fid else [])
+
+        def preprocess(path, defs, hdr):
+            inc = ['-I' + top] if hdr else ['-I' + os.path.join(top, 'src'), '-I' + root]
+            cmd = ['g++', '-std=c++17', '-fPIC', '-w', '-E', '-x', 'c++'] + ['-D' + d for d in defs] + inc + cf + [path]
+            rc, so, se = vlib.sh(['bash', '-c', "set -o pipefail; %s | { grep '^#pragma c20' || true; }" % ' '.join("'%s'" % c for c in cmd)], timeout=600)
+            return rc, so, se
+        jobs = []
+        for ci, F in enumerate(configs):
+            for kind, p, env in tus:
+                jobs.append((ci, kind, p, env + F, False))
+            jobs.append((ci, 'hdr', os.path.join(top, 'user_hdr.cpp'), HDR_ENV + F, True))
+        with concurrent.futures.ThreadPoolExecutor(max_workers=min(8, vlib.NCPU)) as ex:
+            outs = list(ex.map(lambda j: preprocess(j[2], j[3], j[4]), jobs))
+        real = {}
+        failed_cfg = {}
+        for (ci, kind, p, env, hdr), (rc, so, se) in zip(jobs, outs):
+            if rc != 0:
+                failed_cfg.setdefault(ci, []).append('%s: %s' % (rel(p), ([l for l in se.splitlines() if 'error' in l] or [se.strip()[:200]])[0][:200]))
+            real[(ci, kind, p)] = cc.markers_of(so)
+        # ---- model runs: same order of groups entered as g++ -E, for every translation unit and configuration
+        reqs, meta = [], []
+
+        def envnums(names):
+            return ','.join(str(macros.of(n)) for n in names) or '-'
+        opaque_ids = set()
+        for l in proto:
+            opaque_ids.update(int(x) for x in re.findall(r'\bo(\d+):', l))
+        for ci, F in enumerate(configs):
+            if ci in failed_cfg:
+                continue
+            for kind, p, env in tus:
+                groups, _ = real[(ci, kind, p)]
+                oq = ','.join(str(g) for g in sorted(set(groups) & opaque_ids)) or '-'
+                reqs.append('R %d %s %s' % (fid[p], envnums(env + F), oq))
+                meta.append(('R', ci, kind, p))
+                if kind == 'lib':
+                    reqs.append('Q %d %s %s %s' % (fid[p], envnums(env + F), envnums(['QTLOGGER_DECL_SPEC'] + F), oq))
+                    meta.append(('Q', ci, kind, p))
+            groups, _ = real[(ci, 'hdr', os.path.join(top, 'user_hdr.cpp'))]
+            oq = ','.join(str(g) for g in sorted(set(groups) & opaque_ids)) or '-'
+            reqs.append('R %d %s %s' % (hdr_file, envnums(HDR_ENV + F), oq))
+            meta.append(('R', ci, 'hdr', None))
+            reqs.append('Q %d %s %s %s' % (hdr_file, envnums(LIB_ENV + F), envnums(HDR_ENV + F), oq))
+            meta.append(('Q', ci, 'hdr', None))
+        model = vlib.build_model('amalgam')
+        rc, mo, me = vlib.run_lines(model, proto + ['M'] + reqs, args=['cond'], timeout=600)
+        if rc != 0 or len(mo) != len(reqs) + 1:
+            chk.broke('the extracted model of conditional groups failed: ' + me[-300:], {'kind': 'cond-model-crash', 'stderr': me[-800:], 'answers': len(mo), 'requests': len(reqs)})
+            return 0
+        mentioned = [macros.name(int(x)) for x in mo[0].split()[1:]]
+        cov['macros_mentioned_outside_known_groups'] = sorted(set(mentioned))
+
+        def where(gid):
+            t = table.get(gid)
+            return '%s:%d: %s' % (t['file'], t['line'], t['text']) if t else 'group %d' % gid
+        n_model, n_mism, not_confined = 0, 0, []
+        for (what, ci, kind, p), ans in zip(meta, mo[1:]):
+            f = ans.split()
+            if what == 'R':
+                n_model += 1
+                got = [int(x) for x in f[3:]]
+                want = real[(ci, kind, p if p else os.path.join(top, 'user_hdr.cpp'))][0]
+                if f[1] == '1' and not any(not r.get('contains_only_what_is_allowed', True) for r in known_report):
+                    pass        # [bad]: reported through Q below
+                if got != want:
+                    n_mism += 1
+                    if n_mism <= 2:
+                        k = next((i for i, (a_, b_) in enumerate(zip(got, want)) if a_ != b_), min(len(got), len(want)))
+                        chk.broke('correspondence: the model of conditional groups and g++ -E disagree on %s (%s build, -D %s): at position %d the '
+                                  'model enters %s, the preprocessor %s' % (rel(p) if p else 'the generated single header', kind, ' '.join(configs[ci]) or '(no feature macro)', k,
+                                                                           where(got[k]) if k < len(got) else 'nothing more', where(want[k]) if k < len(want) else 'nothing more'),
+                                  {'kind': 'cond-model-vs-preprocessor', 'translation_unit': rel(p) if p else 'qtlogger.h (generated)', 'build': kind,
+                                   'feature_macros': configs[ci], 'position': k, 'model': [where(g) for g in got[k:k + 3]], 'preprocessor': [where(g) for g in want[k:k + 3]]})
+                if f[2] == '1':
+                    chk.broke('the model of conditional groups ran out of include depth on %s' % (rel(p) if p else 'the generated header'), {'kind': 'cond-model-depth'})
+            elif f[1] != '1':
+                not_confined.append((ci, kind, p))
+        # ---- the oracle on what g++ -E really did: every group outside the known ones is entered in the header-only build
+        #      exactly when it is entered in the library build (per translation unit that reaches its file)
+        file_of = {gid: fid[os.path.join(top, t['file'])] for gid, t in table.items()}
+        diverging = {}
+        for ci, F in enumerate(configs):
+            if ci in failed_cfg:
+                continue
+            hg = set(real[(ci, 'hdr', os.path.join(top, 'user_hdr.cpp'))][0])
+            hf = set(real[(ci, 'hdr', os.path.join(top, 'user_hdr.cpp'))][1])
+            for kind, p, env in tus:
+                g, fl = real[(ci, kind, p)]
+                g, fl = set(g), set(fl)
+                for gid in table:
+                    if file_of[gid] in fl and file_of[gid] in hf and ((gid in g) != (gid in hg)):
+                        diverging.setdefault(gid, {'library_enters': gid in g, 'header_only_enters': gid in hg, 'seen_in': rel(p), 'feature_macros': F})
+        outside = sorted(g for g in diverging if g not in K)
+        cov['conditional_groups'] = {'groups': len(table), 'files': len(files), 'translation_units': len(tus) + 1, 'configurations': [' '.join(F) or '(none)' for F in configs],
+                                     'configurations_not_preprocessable_here': {(' '.join(configs[ci]) or '(none)'): v[:2] for ci, v in failed_cfg.items()},
+                                     'model_runs_compared_with_gxx_E': n_model, 'model_vs_preprocessor_mismatches': n_mism,
+                                     'opaque_conditions': len(opaque_ids), 'confined_decisions': sum(1 for m_ in meta if m_[0] == 'Q'), 'not_confined': len(not_confined),
+                                     'groups_taking_different_branches': {where(g): {k_: v_ for k_, v_ in diverging[g].items() if k_ != 'seen_in'} for g in sorted(diverging)[:12]},
+                                     'of_those_outside_the_known_list': len(outside)}
+        differing = set(LIB_ENV + ['QTLOGGER_DECL_SPEC'])
+        suspects = [gid for gid, t in sorted(table.items()) if gid not in K and t['kind'] != 'else' and differing & set(re.findall(r'QTLOGGER_\w+', t['text']))]
+        if outside:
+            g0 = outside[0]
+            chk.broke('a conditional of the sources takes different branches in the library build (-D%s) and in a header-only user\'s build (neither defined) and is '
+                      'not one of the known switches: %s - the library build %s this group, the single header %s it (translation unit %s%s)%s'
+                      % (' -D'.join(LIB_ENV), where(g0), 'enters' if diverging[g0]['library_enters'] else 'skips', 'enters' if diverging[g0]['header_only_enters'] else 'skips',
+                         diverging[g0]['seen_in'], (', with -D' + ' -D'.join(diverging[g0]['feature_macros'])) if diverging[g0]['feature_macros'] else '',
+                         ('; also: ' + '; '.join(where(g) for g in outside[1:4])) if len(outside) > 1 else ''),
+                      {'kind': 'conditional-takes-different-branch', 'groups': [dict(diverging[g], where=where(g)) for g in outside[:10]],
+                       'known_list': [k_['file'] + ': ' + k_['opens'] for k_ in KNOWN_CONDITIONALS],
+                       'how': "g++ -E -DQTLOGGER_STATIC -DQTLOGGER_LIBRARY -Isrc -Isrc/qtlogger <file>   vs   g++ -E -I. on '#include \"qtlogger.h\"'"})
+        elif not_confined or suspects:
+            ci, kind, p = (not_confined or [(0, '', None)])[0]
+            chk.broke('the divergence of the two builds is no longer confined to the known conditionals (C20_branches_confined_to_known_groups does not apply): %s'
+                      % ('; '.join(where(g) for g in suspects[:4]) if suspects else 'a known chain contains other directives (%s)' % (rel(p) if p else 'generated header')),
+                      {'kind': 'conditional-not-confined', 'conditions_mentioning_a_differing_macro': [where(g) for g in suspects[:10]],
+                       'translation_units': [rel(p_) if p_ else 'qtlogger.h (generated)' for _, _, p_ in not_confined[:6]]})
+        if n_model and not chk.samples:
+            pass
+        return n_model
+    finally:
+        shutil.rmtree(top, ignore_errors=True)
+        chk.cov.update(cov)
+
+
 # ---- whole-process behaviour: the same PROGRAM (harness/h_header_exit.cpp) built against the library and header-only;
 #      compared after the process ended: exit status / signal, stdout, stderr, the files it left ------------------------
 N_TEMPLATES = 8          # kTemplates in harness/h_header_exit.cpp
@@ -658,7 +913,7 @@ def run_program(exe, prog, timeout=180):
         for dp, _, fs in os.walk(w):
             for f in fs:
                 full = os.path.join(dp, f)
-                files.append((os.path.relpath(full, w), open(full, 'rb').read()))
+                files.append((os.path.relpath(full, w), open(full, 'rb').read().decode('utf-8', 'replace').replace(w, '<dir>')))
         files.sort()
         so, se = (x.decode('utf-8', 'replace').replace(w, '<dir>') for x in (so, se))      # the sinks' error messages name the file
         return {'status': status, 'stdout': canon_text(so), 'stderr': canon_text(se),
@@ -1116,7 +1371,7 @@ def run():
     checked += 1 if multi_include_leg(chk, repo) else 0
     checked += layout_leg(chk, repo)
     # the two expensive legs run side by side (8 compiler processes + make -j8)
-    with concurrent.futures.ThreadPoolExecutor(max_workers=4) as ex2:
+    with concurrent.futures.ThreadPoolExecutor(max_workers=5) as ex2:
         f_t = ex2.submit(two_tu_leg, chk, repo)
         f_c = ex2.submit(configuration_leg, chk, repo, thorough)
         try:        # one make invocation for every harness of the two behaviour legs (they report a failing build themselves)
@@ -1125,7 +1380,8 @@ def run():
             pass
         f_b = ex2.submit(behaviour_leg, chk)
         f_p = ex2.submit(process_leg, chk)
-        checked += f_b.result() + f_t.result() + f_p.result()
+        f_k = ex2.submit(conditional_leg, chk, repo)
+        checked += f_b.result() + f_t.result() + f_p.result() + f_k.result()
         n_cfg = f_c.result()
     checked += n_cfg
     if thorough:
